@@ -330,9 +330,15 @@ func checkC06(P *Prog, r *Result) {
 				}
 			case "panic":
 				// control-dependent only on configuration
+				// A guard computed from input data is tolerated only when it is an exit gate (its other
+				// side goes straight to a return: it decides whether the node continues at all, e.g.
+				// `if !ok { return }` after a failed decode) and is not the panic's own (innermost) condition.
 				badG := ""
-				for _, gd := range guardsOf(b) {
+				for gi, gd := range guardsOf(b) {
 					if t, via2 := P.inputTainted(g, fn, gd.If.Cond); t {
+						if gi > 0 && isExitGate(gd) {
+							continue
+						}
 						badG = via2
 					}
 				}
@@ -607,6 +613,9 @@ func (P *Prog) decideInvoke(r *Result, g *modCG, fn *ssa.Function, s panicSite, 
 				}
 			}
 		}
+		if _, ok := x.Tuple.(*ssa.Call); ok && P.isDataProviderIface(recv.Type()) {
+			why = "data provider: decided by C06/nil-provider"
+		}
 	case *ssa.Parameter:
 		why = "receiver is a parameter of interface type (non-nil by the caller's obligation)"
 	case *ssa.Call:
@@ -703,6 +712,34 @@ func (P *Prog) decideInvoke(r *Result, g *modCG, fn *ssa.Function, s panicSite, 
 		why = "receiver is not derived from input data"
 	}
 	r.ok("C06/panic-site", c, pos, why)
+}
+
+// isExitGate: the side of the guard that is not taken runs straight (no
+// branch, no call other than the deferred ones) to a return.
+func isExitGate(gd guard) bool {
+	b := gd.If.Block()
+	k := 0
+	if gd.True {
+		k = 1
+	}
+	o := b.Succs[k]
+	for n := 0; n < 4; n++ {
+		for _, in := range o.Instrs {
+			switch in.(type) {
+			case *ssa.Call, *ssa.Store, *ssa.Go, *ssa.Panic, *ssa.If, *ssa.MapUpdate, *ssa.Send:
+				return false
+			}
+		}
+		switch o.Instrs[len(o.Instrs)-1].(type) {
+		case *ssa.Return:
+			return true
+		case *ssa.Jump:
+			o = o.Succs[0]
+		default:
+			return false
+		}
+	}
+	return false
 }
 
 func (P *Prog) guardedNonNil(b *ssa.BasicBlock, v ssa.Value) bool {
